@@ -988,11 +988,43 @@ class JunctionClamp(FlagGuard):
         return "reject" if p["f"] else "accept"
 
 
+class ShellChop(FlagGuard):
+    """Shell.chop refuses a store with a face that shares no point with another one"""
+    name = "shell_chop"
+    atoms = [("f", r"self\.aware_face_store\.is_disconnected", "bool")]
+    ref = "ref_flag f"
+    anchor = "construct/shapes/shell.py Shell.chop"
+    # x-offsets of unit quads in the plane z = 0; quads at distance 1 share an edge
+    SETS = [[0, 1], [0, 1, 2], [0, 3], [0], [0, 1, 5], [0, 1, 3, 4], [0, 2, 4]]
+
+    def func(self):
+        return _cb().Shell.chop
+
+    def probes(self, rng, extra):
+        out = []
+        for xs in self.SETS:
+            solitary = any(all(abs(x - y) != 1 for y in xs) for x in xs)
+            out.append(dict(xs=xs, f=solitary))
+        return out
+
+    def run(self, p):
+        cb = _cb()
+
+        def go():
+            faces = [cb.Face([[x, 0, 0], [x + 1, 0, 0], [x + 1, 1, 0], [x, 1, 0]]) for x in p["xs"]]
+            cb.Shell(faces, 0.1).chop(count=3)
+        return attempt(go)
+
+    def oracle(self, p):
+        return "reject" if p["f"] else "accept"
+
+
 GUARDS = [SemiCylinderPerp(), FrustumPerp(), AnnulusPerp(), FaceCoplanar(), LengthRatio(), AnnulusRadii(),
           CylinderChain(), FrustumChain(), RingChain(), Contract(),
           FaceAddEdge(), AddSideEdge(), ProjectCorner(), ProjectEdge(), BlockAddEdge(), FrameAddBeam(),
           OpChop(), ShapeChop(), LabelCount(), FaceEdges(), SideVertices(), FromSeries(), FillSegments(),
-          FaceCounts(), PointShape(), FacePoints(), ElbowChain(), MeshGrade(), MeshBackport(), JunctionClamp()]
+          FaceCounts(), PointShape(), FacePoints(), ElbowChain(), MeshGrade(), MeshBackport(), JunctionClamp(),
+          ShellChop()]
 BY_NAME = {g.name: g for g in GUARDS}
 
 
@@ -1061,7 +1093,17 @@ def oracle_mesh_history(h, obs):
     return None
 
 
+_GRID = []
+
+
 def grid_points():
+    if _GRID:
+        return _GRID[0][0].copy(), [list(a) for a in _GRID[0][1]]
+    _GRID.append(_grid_points())
+    return grid_points()
+
+
+def _grid_points():
     cb = _cb()
     m = cb.Mesh()
     m.add(cb.Box([0, 0, 0], [1, 1, 1]))
@@ -1327,7 +1369,16 @@ def judge(g, p, r):
         return "accepted although the documented precondition is violated"
     if want == "accept" and r[0] != "ok":
         return "rejected (%s) although the precondition holds" % r[1]
+    if want == "reject" and str(r[1]).startswith("other:"):
+        # the property names the kinds of exception that count as an enforced precondition
+        return "refused only by an incidental %s, not by a creation / value / key / runtime error" % r[1][6:]
     return None
+
+
+def verdict(why):
+    if why.startswith("refused only by"):
+        return "wrong-exception-kind"
+    return "accepts-invalid" if (why.startswith("accepted") or " accepted" in why) else "rejects-valid"
 
 
 class C20(Prop):
@@ -1515,8 +1566,7 @@ class C20(Prop):
         return fails
 
     def signature(self, rp):
-        return "C20:%s:%s:%s" % (rp.get("guard"), "accepts-invalid" if "accepted" in rp.get("why", "")[:10] or " accepted" in rp.get("why", "") else "rejects-valid",
-                                 rp.get("region", ""))
+        return "C20:%s:%s:%s" % (rp.get("guard"), verdict(rp.get("why", "")), rp.get("region", ""))
 
     def replay(self, ctx, obj):
         k = obj.get("kind")
